@@ -639,6 +639,17 @@ def thread_variant_joins(m, local_enums, max_chain=6):
     (`local_enums`); returns the number of paths threaded."""
     import copy
     blocks = m["blocks"]
+    total = 0
+    for _round in range(4):
+        n_ = _thread_round(blocks, local_enums, max_chain)
+        total += n_
+        if not n_:
+            break
+    return total
+
+
+def _thread_round(blocks, local_enums, max_chain):
+    import copy
     preds = {}
     for i, b in enumerate(blocks):
         t = b["term"]
